@@ -156,9 +156,9 @@ class _Jac(LinearOperator):
         # otherwise, reevaluate by replacing the parameters with the new tensor params
         else:
             with torch.enable_grad(), self.fcn.useobjparams(self.objparams):
-                self.__update_params()
-                yparam = self.params[self.idx]
-                yout = self.fcn(*self.params)  # (*nout)
+                params = self.__current_params()
+                yparam = params[self.idx]
+                yout = self.fcn(*params)  # (*nout)
                 v = torch.ones_like(yout).to(yout.device).requires_grad_()  # (*nout)
                 dfdy, = torch.autograd.grad(yout, (yparam,), grad_outputs=v, create_graph=True)  # (*nin)
 
@@ -184,9 +184,9 @@ class _Jac(LinearOperator):
             yparam = self.yparam
         else:
             with torch.enable_grad(), self.fcn.useobjparams(self.objparams):
-                self.__update_params()
-                yparam = self.params[self.idx]
-                yout = self.fcn(*self.params)  # (*nout)
+                params = self.__current_params()
+                yparam = params[self.idx]
+                yout = self.fcn(*params)  # (*nout)
 
         gout1 = gout.reshape(-1, self.nout)  # (nbatch, nout)
         nbatch = gout1.shape[0]
@@ -206,8 +206,11 @@ class _Jac(LinearOperator):
         return [id(param) for param in self.params_tensor] == self.id_params_tensor and \
                [id(param) for param in self.objparams] == self.id_objparams_tensor
 
-    def __update_params(self):
-        self.params = self.param_sep.reconstruct_params(self.params_tensor)
+    def __current_params(self):
+        # the full parameter list with the tensors installed right now; it is not
+        # stored, so that temporarily substituted tensors do not stay alive on
+        # the operator after the substitution has ended
+        return self.param_sep.reconstruct_params(self.params_tensor)
 
 def connect_graph(out, params):
     # just to have a dummy graph, in case there is a parameter that
